@@ -154,6 +154,19 @@ def core_check(ctx, lib, keys, counts, pollute, fr, label, as_group=()):
                 break
         else:
             continue
+    # the same counts given as numpy scalars (what arithmetic on descriptor tables produces) are the same mapping
+    if Ts and all(have(g, 'HoRT') for g in groups):
+        mp2 = {k: (np.int64(c) if isinstance(c, int) and not isinstance(c, bool) else np.float64(c)) for k, c in mapping.items()}
+        try:
+            est2 = lib.Estimate(mp2, 'thermochem')
+            a, b = quiet(est.get_HoRT, Ts[0]), quiet(est2.get_HoRT, Ts[0])
+            ctx.count()
+            ctx.event('numpy-scalar-counts')
+            if not (abs(a - b) <= 1e-12 * max(1.0, abs(a))):
+                ctx.fail('numpy-scalar-counts-change-the-value', '[%s] HoRT(%r) = %r with Python counts, %r with the same counts as numpy scalars %s'
+                         % (label, Ts[0], a, b, dict(zip(keys, counts))))
+        except Exception as e:
+            ctx.fail('numpy-scalar-counts-raise:%s' % type(e).__name__, '[%s] Estimate with counts as numpy scalars raised %s: %s' % (label, type(e).__name__, e))
     # Cp/R accepts an array of temperatures (the correlations vectorise it): the estimate must be the same weighted sum,
     # element by element, for float and integer arrays alike
     if all(have(g, 'CpoR') for g in groups) and len(Ts) >= 2:
